@@ -116,7 +116,8 @@ def _snapshot_and_bytes(root):
     if isinstance(root, api.Project):
         return snapshot.snap_project(root), root.read()
     if isinstance(root, api.Synth):
-        return snapshot.snap_synth(root), root.read()
+        # (third element: what the module says about itself besides its serialized state - its behaviours)
+        return snapshot.snap_synth(root), root.read(), sorted(map(repr, getattr(root.module, "behaviors", None) or ()))
     if isinstance(root, (api.Pattern, api.PatternClone)):
         return snapshot.snap_pattern(root), b"".join(a + b for a, b in root.iff_chunks())
     raise TypeError(root)
@@ -127,7 +128,7 @@ def differential(res, rootA, rootB, kind, T, rng, n_edits, desc, sentinels=None)
     import rv.api as api
     if isinstance(rootA, (api.Pattern, api.PatternClone)):
         return pattern_differential(res, rootA, rootB, kind, rng, desc)
-    SA, _ = _snapshot_and_bytes(rootA)
+    SA = _snapshot_and_bytes(rootA)[0]
     g = gen.Gen(rng)
     edits = c06.catalogue(SA, g)
     rng.shuffle(edits)
@@ -151,9 +152,9 @@ def differential(res, rootA, rootB, kind, T, rng, n_edits, desc, sentinels=None)
         res.count("b_comparisons")
         if res.evaluations % 1201 == 1:
             res.sample({"type": T, "b_kind": kind, "mutation_of_A": e.path, "new_value": repr(e.value)[:80], "B_snapshot_and_bytes_unchanged": after == before})
-        if after[0] != before[0] or after[1] != before[1]:
+        if after != before:
             d = snapshot.diff(before[0], after[0])
-            where = snapshot.field_key(d[0][0]) if d else "bytes"
+            where = snapshot.field_key(d[0][0]) if d else ("bytes" if after[1] != before[1] else "behaviors")
             res.violation(f"C17:leak:{T}:{kind}:{snapshot.field_key(e.path)}->{where}",
                           f"{T} ({kind}): mutating A at {e.path} changed B: {d[:2] if d else 'saved bytes differ'}", dict(desc, path=e.path))
             return False
